@@ -10,6 +10,8 @@ EXTENDS Naturals, Sequences, FiniteSets, TLC
 
 CONSTANTS MaxP,      \* max number of declared parameters
           MaxPos,    \* max length of a positional params list
+          KindSet,   \* parameter kinds signatures are drawn from (all five for C04; positional-or-keyword / keyword-only for C17)
+          InputKinds,\* {"pos", "named"} or a subset
           Deviations \* names of the known, unrepaired deviations of the implementation that are switched on ({} = intended design)
 
 AllNames == <<"p1", "p2", "p3", "p4">>
@@ -37,7 +39,7 @@ Grammatical(s) ==
     /\ \A i \in DOMAIN s : s[i].kind \in {"VP", "VK"} => ~s[i].dflt
     /\ \A i, j \in DOMAIN s : (i < j /\ s[i].kind \in {"PO", "PK"} /\ s[j].kind \in {"PO", "PK"} /\ s[i].dflt) => s[j].dflt
 SigOf(f) == [i \in DOMAIN f |-> [name |-> AllNames[i], kind |-> f[i][1], dflt |-> f[i][2]]]
-SigsOfLen(n) == {s \in {SigOf(f) : f \in [1..n -> Kinds \X BOOLEAN]} : Grammatical(s)}
+SigsOfLen(n) == {s \in {SigOf(f) : f \in [1..n -> KindSet \X BOOLEAN]} : Grammatical(s)}
 
 \* admissible context designations for a signature and flavour
 CtxChoices(s, fl) ==
@@ -45,8 +47,10 @@ CtxChoices(s, fl) ==
     ELSE {[mode |-> "none", name |-> "na"]}
          \cup {[mode |-> "byname", name |-> s[i].name] : i \in {j \in DOMAIN s : s[j].kind \in {"PK", "KO"}}}
          \cup (IF Len(s) >= 1 /\ s[1].kind \in {"PO", "PK"} THEN {[mode |-> "positional", name |-> s[1].name]} ELSE {})
-Inputs == {[k |-> "pos", n |-> n, keys |-> {}] : n \in 0..MaxPos}
-          \cup {[k |-> "named", n |-> 0, keys |-> S] : S \in SUBSET KeyNames}
+         \* a parameter with a default taken out by the validator's / extractor's exclusion predicate (dependency injection)
+         \cup {[mode |-> "excl", name |-> s[i].name] : i \in {j \in DOMAIN s : s[j].kind \in {"PK", "KO"} /\ s[j].dflt}}
+Inputs == {i \in {[k |-> "pos", n |-> n, keys |-> {}] : n \in 0..MaxPos}
+                     \cup {[k |-> "named", n |-> 0, keys |-> S] : S \in SUBSET KeyNames} : i.k \in InputKinds}
 
 NoRecv == [ran |-> FALSE, vctx |-> "na", rec |-> [p1 |-> "na", p2 |-> "na", p3 |-> "na", p4 |-> "na"], va |-> <<>>,
            kw |-> [x \in KeyNames |-> "-"]]
@@ -57,7 +61,8 @@ Init == \E n \in 0..MaxP : \E s \in SigsOfLen(n), fl \in {"func", "coro", "view"
 
 (***************************** call binding ********************************)
 \* the signature the client's params are bound against: the context parameter is taken out
-Eff == SelectSeq(sig, LAMBDA p : ~(ctx.mode \in {"byname", "positional"} /\ p.name = ctx.name))
+Removed == {"byname", "positional", "excl"}      \* modes that take a parameter out of the signature the client binds against
+Eff == SelectSeq(sig, LAMBDA p : ~(ctx.mode \in Removed /\ p.name = ctx.name))
 PosPars == SelectSeq(Eff, LAMBDA p : p.kind \in {"PO", "PK"})
 HasKind(k) == \E i \in DOMAIN Eff : Eff[i].kind = k
 ParNamed(x) == {i \in DOMAIN Eff : Eff[i].name = x}
@@ -75,7 +80,7 @@ NamedVerdict(S) ==
         missing   == \E i \in DOMAIN Eff : Eff[i].kind \in {"PO", "PK", "KO"} /\ ~Eff[i].dflt /\ ~(Eff[i].name \in S /\ fills(Eff[i].name))
     IN IF strays # {} /\ ~HasKind("VK") THEN "fail"
        ELSE IF \E x \in strays : KindOf(x) = "PO" THEN "dontcare"       \* inspect.Signature.bind and a real call disagree (Appendix B)
-       ELSE IF ctx.mode \in {"byname", "positional"} /\ ctx.name \in strays THEN "dontcare"   \* client names the context parameter, **kw present (3.3)
+       ELSE IF ctx.mode \in Removed /\ ctx.name \in strays THEN "dontcare"   \* client names the context parameter, **kw present (3.3)
        ELSE IF missing THEN "fail"
        ELSE "ok"
 Verdict == IF inp.k = "pos" THEN PosVerdict(inp.n) ELSE NamedVerdict(inp.keys)
@@ -87,6 +92,7 @@ Rec(name) ==
     IF ps = {} THEN "na"
     ELSE LET p == sig[CHOOSE i \in ps : TRUE] IN
          IF ctx.mode \in {"byname", "positional"} /\ ctx.name = name THEN "CTX"
+         ELSE IF ctx.mode = "excl" /\ ctx.name = name THEN "DEFAULT"
          ELSE IF p.kind = "VP" THEN "VA" ELSE IF p.kind = "VK" THEN "KW"
          ELSE IF inp.k = "pos" THEN (IF p.kind \in {"PO", "PK"} /\ PosIndex(name) <= inp.n THEN PosVal[PosIndex(name)] ELSE "DEFAULT")
          ELSE (IF name \in inp.keys /\ p.kind \in {"PK", "KO"} THEN NamedVal[name] ELSE "DEFAULT")
@@ -132,6 +138,14 @@ Dev_ReplyServerError == /\ DevOn /\ pc = "bound" /\ reply' = "c_m32000" /\ pc' =
                         /\ UNCHANGED <<sig, ctx, flavour, route, inp, received>>
 Next == Bind \/ Exec(Expected) \/ ReplyResult \/ ReplyInvalidParams \/ Dev_ReplyServerError
 Spec == Init /\ [][Next]_vars
+
+(************ C17: what the generated documents must list ********************)
+\* exactly the names the dispatcher binds by name, required = those without a default; the context / excluded parameter in neither
+DocNames    == {Eff[i].name : i \in {j \in DOMAIN Eff : Eff[j].kind \in {"PK", "KO"}}}
+DocRequired == {Eff[i].name : i \in {j \in DOMAIN Eff : Eff[j].kind \in {"PK", "KO"} /\ ~Eff[j].dflt}}
+\* ... consequently (checked by TLC on the model): satisfying names + required <=> binding succeeds
+DocumentedIsAccepted == (inp.k = "named" /\ \A i \in DOMAIN Eff : Eff[i].kind \in {"PK", "KO"}) =>
+                           ((inp.keys \subseteq DocNames /\ DocRequired \subseteq inp.keys) <=> Verdict = "ok")
 
 (****************************** properties *********************************)
 Ran == received.ran
